@@ -975,7 +975,54 @@ def _bounded_restructure(tier, seed):
             "domain": f"{n} rounds: concatenate 1..6 spectra + select every index; flatten of (time,latitude) layouts; random operation sequences of length <= 6 with bitwise snapshots; netCDF round trip incl. NaN and infinite depth"}
 
 
-BOUNDED = [Bounded("restructuring_and_sequences", _bounded_restructure)]
+
+def _bounded_reductions_antimeridian(tier, seed):
+    """operands of mean / sum / std bit-for-bit unchanged when positions straddle the antimeridian or span more than 180 degrees (added after
+    seeded change C15-3 - an in-place longitude unwrap inside mean() - was first missed: the executor refuses a store through `.values`)"""
+    import numpy as np
+    from ocean_science_utilities.wavespectra.spectrum import create_1d_spectrum, create_2d_spectrum
+    rng = np.random.default_rng(seed + 733)
+    fails, evals = [], 0
+    f = np.linspace(0.05, 0.5, 6)
+    d = np.linspace(0, 360, 8, endpoint=False)
+    for case in range(4 if tier == "quick" else 40):
+        n = int(rng.integers(2, 6))
+        lons = [np.array([179.25, 179.75, -179.75, -179.25, 178.0])[:n], rng.uniform(-180, 180, n), np.linspace(-170, 170, n), rng.uniform(0, 360, n)][case % 4]
+        lats = rng.uniform(-60, 60, n)
+        t = np.arange(n) * 3600.0
+        for kind in ("1d", "2d"):
+            if kind == "1d":
+                sp = create_1d_spectrum(f, rng.random((n, 6)), t, lats, lons.copy(), a1=rng.uniform(-.5, .5, (n, 6)), b1=rng.uniform(-.5, .5, (n, 6)),
+                                        a2=rng.uniform(-.5, .5, (n, 6)), b2=rng.uniform(-.5, .5, (n, 6)), depth=rng.uniform(5, 500, n))
+            else:
+                sp = create_2d_spectrum(f, d, rng.random((n, 6, 8)), t, lats, lons.copy(), depth=rng.uniform(5, 500, n))
+            for op in ("mean", "sum", "std"):
+                before = {str(k): np.array(v.values, copy=True) for k, v in sp.dataset.variables.items()}
+                evals += 1
+                try:
+                    res = getattr(sp, op)(dim="time")
+                except Exception as e:
+                    fails.append({"what": f"{op} raised {type(e).__name__}: {e}"[:160], "kind": kind})
+                    continue
+                for k, v in sp.dataset.variables.items():
+                    b = before[str(k)]
+                    same = b.shape == v.values.shape and (np.array_equal(b, v.values, equal_nan=True) if b.dtype.kind == "f" else np.array_equal(b, v.values))
+                    if not same:
+                        fails.append({"what": f"{op}(dim='time') modified its operand's variable {k!s}", "kind": kind, "longitudes_before": lons.tolist(),
+                                      "after": np.asarray(v.values).tolist() if str(k) == "longitude" else None})
+                if res is sp or res.dataset is sp.dataset:
+                    fails.append({"what": f"{op} returned its operand", "kind": kind})
+    seen, keep = set(), []
+    for x in fails:
+        if x["what"] not in seen:
+            seen.add(x["what"])
+            keep.append(x)
+    return {"evaluations": evals, "distinct": evals, "failures": keep[:4], "samples": [],
+            "domain": "mean / sum / std over time of 1D and 2D spectra with 2..5 members whose longitudes straddle the antimeridian, span > 180 degrees or lie in [0, 360)"}
+
+
+BOUNDED = [Bounded("restructuring_and_sequences", _bounded_restructure),
+           Bounded("reductions_across_the_antimeridian", _bounded_reductions_antimeridian)]
 
 CONTRACTS = [add_c, sub_c, neg_c, copy_deep, copy_shallow, bandpass_c, multiply_c, multiply_inplace, as1d_c, bandpass_then_fillna, copy_then_fillna] + NEW
 TRUSTED = ["effect model of xarray in pyvc/models/xr.py: DataArray objects are immutable buffers (a store through .values is refused as unsupported), Dataset.__setitem__ mutates only the mapping it is called on, "
